@@ -104,3 +104,9 @@ package keeper
 //@ loop 0 invariant [kept_plus_removed_is_seen] ubal(kept, len(kept)) + removeAmt == ubal(ubd.Entries, $i)
 //@ loop 0 invariant [done_means_nothing_left] done ==> tokens == 0
 //@ loop 0 invariant [not_done_means_all_seen_consumed] !done ==> len(kept) == 0
+
+// ReporterStake is not verified yet (C10 lists it as not decided); callers rely on this frame only.
+//@ func (k Keeper).ReporterStake(ctx, repAddr, queryId) (stake, err)
+//@ trusted
+//@ modifies reporter.Report
+//@ ensures [stake_is_a_token_amount_below_2_64_whole_tokens] err == nil ==> 0 <= stake && stake < 18446744073709551616000000
